@@ -51,6 +51,27 @@ int main(int argc, char** argv) {
       chk("transpose", tt ? 0 : 1, 0, "trans(A) has wrong elements");
       chk("sum", maxdiff(DMat(DMat(A + A) - A), A), 0, "A + A - A != A");
       chk("scalar", maxdiff(DMat(A * 2.0), DMat(A + A)), 0, "2A != A + A");
+      // lazily transposed operands (TransMat / TransVec) against the materialised transposes
+      {
+        DMat T1 = trans(B) * trans(A);
+        chk("transmat_product", maxdiff(T1, DMat(trans(AB))), 1e-12, "trans(B) * trans(A) (two TransMat operands) != trans(A*B)");
+        DMat T2 = trans(A) * A;  DMat T2m = At * A;
+        chk("transmat_mat", maxdiff(T2, T2m), 1e-12, "trans(A) * A (TransMat x Mat) differs from the materialised product");
+        DMat T3 = A * trans(A);  DMat T3m = A * At;
+        chk("mat_transmat", maxdiff(T3, T3m), 1e-12, "A * trans(A) (Mat x TransMat) differs from the materialised product");
+        // TransMat::operator*(Float) and operator*(Float, TransMat) do not compile when instantiated (mul is a dependent name): not callable
+        DMat T6 = trans(A) + trans(A);  DMat T6m = At + At;
+        chk("transmat_sum", maxdiff(T6, T6m), 0, "trans(A) + trans(A) differs from the materialised sum");
+        DVec vr(r); for (int i = 1; i <= r; i++) vr(i) = i - 2;
+        DVec w1 = trans(A) * vr;  DVec w1m = At * vr;
+        double dw = 0; for (int i = 1; i <= k; i++) dw = std::max(dw, std::fabs(w1(i) - w1m(i)));
+        chk("transmat_vec", dw, 1e-12, "trans(A) * v differs from the materialised product");
+        DVec vk(k); for (int i = 1; i <= k; i++) vk(i) = 2 * i - 3;
+        DVec w2m = A * vk;
+        DVec w2 = trans(vk * trans(A));                       // v' A' = (A v)'
+        dw = (w2.dim() == r) ? 0 : 1; for (int i = 1; dw == 0 && i <= r; i++) dw = std::max(dw, std::fabs(w2(i) - w2m(i)));
+        chk("vec_transmat", dw, 1e-12, "v * trans(A) differs from trans(A v)");
+      }
       // non-conforming operands
       if (k != r || c != k) {
         if (A.cols() != A.rows() || true) {
